@@ -201,7 +201,9 @@ impl TExec {
             Exp3::Fail(why) => {
                 // an allowance is the holder's standing authorisation: a delegated debit
                 // without a live, sufficient allowance is also a debit without authorisation
-                let tags: &[&'static str] = if why.ends_with("-allowance") { &["C12", "C07"] } else { &["C12"] };
+                // ... and a negative amount moves value the other way: the address that would be
+                // debited (the receiver of a negative transfer or mint) authorised nothing
+                let tags: &[&'static str] = if why.ends_with("-allowance") || why == "negative-amount" { &["C12", "C07"] } else { &["C12"] };
                 must_fail(ctx, &res, tags, &format!("{}/accepted:{}", func, why), why);
             }
             Exp3::Either if res.out.is_err() => {
